@@ -6,9 +6,11 @@ R08b a foreign key is multiplied in and stored only after its proof of knowledge
 R08c the stored value is the multiplied value; removal inverts the stored value, erases it and
      rejects unknown fingerprints without writing,
 R08d the fixed-base table of h is rebuilt from h in Finalize,
+R08e role discipline of adders / removers of foreign keys,
+R08f every fixed-base table is built for its own base, modulo p, with bits(q) rows,
 plus the frozen inventory of VerifyNIZK / UpdateKey / RemoveKey."""
 from . import invcheck
-from ..facts import AnalysisBroken
+from ..facts import AnalysisBroken, walk
 
 CLS = 'BarnettSmartVTMF_dlog'
 
@@ -117,6 +119,56 @@ def run(ctx):
         if ev[1] == 'tmcg_mpz_fpowm_precompute' and len(ev[2]) >= 3 and ev[2][1] == T.mk('this', 'h') and ev[2][2] == T.mk('this', 'p'):
             okd = True
     (ctx.ok if okd else ctx.bad)('R08d', 'R08d:Finalize', 'table of h is rebuilt from h and p' if okd else 'Finalize does not rebuild the table of h from the current h', f)
+    # R08f: every fixed-base table of the class is built for its own base, modulo p, and with one row
+    # per bit of the group order -- the exponents used with it are residues modulo q, and the nominal
+    # size G_size is only a lower bound of bits(q): a shorter table makes h^r come out wrong for this
+    # player only (rows beyond the length keep zeros or the squares of the previous key)
+    nf = 0
+    for key, f in prog.funcs.items():
+        if f.get('cls') not in classes or not f.get('body'):
+            continue
+        a = ctx.analysis(f)
+        T = a.T
+        occ = {}
+        # which objects are named is read off the call expression, the row count is the value the
+        # dataflow has for the fourth argument at the call
+        sites = {}
+        for e in walk(f['body']):
+            if e.get('k') == 'call' and e.get('f') == 'tmcg_mpz_fpowm_precompute' and len(e.get('a', [])) == 4:
+                sites.setdefault(e.get('l'), []).append(e)
+        for nid, ev in sorted(a.all_events('call'), key=lambda x: (x[1][3], x[0])):
+            if ev[1] != 'tmcg_mpz_fpowm_precompute' or len(ev[2]) != 4:
+                continue
+            cand = sites.get(ev[3]) or []
+            if not cand:
+                continue
+            e = cand.pop(0) if len(cand) > 1 else cand[0]
+            st = a.instate[nid]
+
+            def member(x):
+                while isinstance(x, dict) and x.get('k') == 'cast':
+                    x = x['e']
+                if isinstance(x, dict) and x.get('k') == 'mem' and isinstance(x.get('o'), dict) and x['o'].get('k') == 'this':
+                    return x['n']
+                return None
+            tab, base, mod = [member(x) for x in e['a'][:3]]
+            length = ev[2][3]
+            nf += 1
+            nm = tab or '?'
+            occ[nm] = occ.get(nm, 0) + 1
+            k = 'R08f:%s:%s#%d' % (f['q'], nm, occ[nm])
+            problems = []
+            if tab is None or base is None or tab != 'fpowm_table_' + base:
+                problems.append('table %s is built from base %s' % (tab, base))
+            if mod != 'p':
+                problems.append('table is built modulo %s instead of p' % mod)
+            if length not in (T.mk('bits', a.read(('m', 'q'), st)), T.mk('bits', a.read(('m', 'p'), st))):
+                problems.append('table has %s rows; exponents are residues modulo q and need bits(q) rows' % T.show(length, 3))
+            if problems:
+                ctx.bad('R08f', k, '; '.join(problems), f, line=ev[3])
+            else:
+                ctx.ok('R08f', k, 'table of %s: own base, modulus p, one row per bit of the group order' % base, f, line=ev[3])
+    ctx.floor('R08f', nf, 5)
 
 
 def classify(a, val, st):
